@@ -404,6 +404,11 @@ def build_iso(p):
     pvd[130:132] = struct.pack('>H', _pget(p, 'bsize_be', bsize) & 0xffff)
     _put(body, 0, sys_area)
     _put(body, 32 * KI, bytes(pvd))
+    # further descriptors of the volume recognition sequence (ECMA-119
+    # supplementary / partition / terminator descriptors, the ECMA-167
+    # BEA01 / NSR0x / TEA01 run of a UDF bridge disc), one per sector
+    for i, (dt, ident) in enumerate(_pget(p, 'vrs', [])):
+        _put(body, 34 * KI + 2048 * i, _iso_vd(dt, ident))
     del body[total:]
     declared = (blocks & 0xffffffff) * (bsize & 0xffff)
     if _pget(p, 'dtype', 1) != 1:
